@@ -161,10 +161,43 @@ NS_ITEMS: typing.List[dict] = [
      "params": [("types", "complist")], "ret": "unit", "paths": {}},
 ]
 
+VOID = "pydsdl/_serializable/_void.py"
+RULE_ITEMS: typing.List[dict] = [
+    {"name": "PrimitiveType.check", "source": PRIMITIVE, "cls": "PrimitiveType", "fn": "__init__", "kind": "slice", "from_start": True,
+     "params": [("bit_length", "int")], "ret": "unit", "targets": ["self._bit_length"],
+     "paths": {"self.MAX_BIT_LENGTH": ("(64 : Nat)", "int"), "self.BITS_IN_BYTE": ("(8 : Nat)", "int")}},
+    {"name": "SignedIntegerType.check", "source": PRIMITIVE, "cls": "SignedIntegerType", "fn": "__init__", "kind": "slice", "from_start": True,
+     "params": [("bit_length", "int"), ("saturated", "bool")], "ret": "unit", "targets": [],
+     "paths": {"self._bit_length": ("bit_length", "int")},
+     "exprs": {"cast_mode != PrimitiveType.CastMode.SATURATED": ("(!saturated)", "bool")}},
+    {"name": "VoidType.check", "source": VOID, "cls": "VoidType", "fn": "__init__", "kind": "slice", "from_start": True,
+     "params": [("bit_length", "int")], "ret": "unit", "targets": ["self._bit_length"],
+     "paths": {"self.MAX_BIT_LENGTH": ("(64 : Nat)", "int")}},
+    {"name": "ArrayType.check", "source": ARRAY, "cls": "ArrayType", "fn": "__init__", "kind": "slice", "from_start": True,
+     "params": [("capacity", "int")], "ret": "unit", "targets": ["self._capacity"], "paths": {}},
+    {"name": "UnionType.check", "source": COMPOSITE, "cls": "UnionType", "fn": "__init__", "kind": "slice", "from_start": True,
+     "params": [("number_of_variants", "int")], "ret": "unit", "targets": [],
+     "paths": {"self.number_of_variants": ("number_of_variants", "int"), "self.MIN_NUMBER_OF_VARIANTS": ("(2 : Nat)", "int")}},
+    {"name": "CompositeType.check_version_and_port", "source": COMPOSITE, "cls": "CompositeType", "fn": "__init__", "kind": "slice",
+     "params": [("major", "int"), ("minor", "int"), ("is_service", "bool"), ("fixed_port_id", "optint")], "ret": "unit",
+     "targets": ["version_valid", "port_id"],
+     "paths": {"self._version.major": ("major", "int"), "self._version.minor": ("minor", "int"), "self.MAX_VERSION_NUMBER": ("(255 : Nat)", "int"),
+               "self._fixed_port_id": ("fixed_port_id", "optint"),
+               "_port_id_ranges.MAX_SERVICE_ID": ("(511 : Nat)", "int"), "_port_id_ranges.MAX_SUBJECT_ID": ("(8191 : Nat)", "int")},
+     "exprs": {"isinstance(self, ServiceType)": ("is_service", "bool")}},
+]
+
 # class constants the tables above assume; checked against the source on every run
 CONSTANTS = [
     ("pydsdl/_serializable/_serializable.py", "SerializableType", "BITS_PER_BYTE", 8),
     (COMPOSITE, "DelimitedType", "_DEFAULT_DELIMITER_HEADER_BIT_LENGTH", 32),
+    (PRIMITIVE, "PrimitiveType", "MAX_BIT_LENGTH", 64),
+    (PRIMITIVE, "PrimitiveType", "BITS_IN_BYTE", 8),
+    (VOID, "VoidType", "MAX_BIT_LENGTH", 64),
+    (COMPOSITE, "CompositeType", "MAX_VERSION_NUMBER", 255),
+    (COMPOSITE, "UnionType", "MIN_NUMBER_OF_VARIANTS", 2),
+    ("pydsdl/_port_id_ranges.py", None, "MAX_SUBJECT_ID", 8191),
+    ("pydsdl/_port_id_ranges.py", None, "MAX_SERVICE_ID", 511),
 ]
 
 KEYWORDS = {"end", "at", "from", "by", "do", "then", "fun", "let", "in", "open", "show", "have", "match", "with", "where", "instance",
@@ -209,6 +242,14 @@ class Tr:
         return None
 
     def e(self, n: ast.AST) -> typing.Tuple[str, str]:
+        ex = self.item.get("exprs")
+        if ex:
+            try:
+                key = ast.unparse(n)
+            except Exception:  # pragma: no cover
+                key = None
+            if key in ex:
+                return ex[key]
         p = self.path(n) if isinstance(n, (ast.Attribute, ast.Name)) else None
         if p is not None:
             return p
@@ -292,6 +333,12 @@ class Tr:
                 if isinstance(op, ast.In) and isinstance(c, ast.Set):
                     elems = [self.e(x)[0] for x in c.elts]
                     parts.append("(" + " || ".join("(%s == %s)" % (left, x) for x in elems) + ")")
+                    continue
+                if isinstance(op, (ast.Is, ast.IsNot)) and isinstance(c, ast.Constant) and c.value is None and tl == "optint":
+                    parts.append("(%s).isSome" % left if isinstance(op, ast.IsNot) else "(%s).isNone" % left)
+                    continue
+                if isinstance(op, (ast.Is, ast.IsNot)) and isinstance(c, ast.Constant) and c.value is None and tl == "int":
+                    parts.append("true" if isinstance(op, ast.IsNot) else "false")  # an integer is never None
                     continue
                 r, tr = self.e(c)
                 if isinstance(op, (ast.Is, ast.IsNot)) and tl == tr and tl in ("comp", "sec"):
@@ -559,7 +606,24 @@ class Tr:
                 c, tc = self.e(s.test)
                 self.flush(out, ind)
                 out.append("%sif %s then" % (ind, c))
+                narrowed = None
+                t0 = s.test
+                if (isinstance(t0, ast.Compare) and len(t0.ops) == 1 and isinstance(t0.ops[0], ast.IsNot) and isinstance(t0.left, ast.Name)
+                        and isinstance(t0.comparators[0], ast.Constant) and t0.comparators[0].value is None
+                        and self.types.get(lname(t0.left.id)) == "optint"):
+                    # inside `if x is not None:` the optional integer is an integer
+                    nm = lname(t0.left.id)
+                    narrowed = (nm, self.paths.get(t0.left.id), self.types.get(nm))
+                    self.types[nm] = "int"
+                    self.paths[t0.left.id] = ("(%s).get!" % nm, "int")
                 self.stmts(s.body, ind + "  ", out, set(declared), mut, gen)
+                if narrowed is not None:
+                    nm, oldp, oldt = narrowed
+                    self.types[nm] = oldt
+                    if oldp is None:
+                        self.paths.pop(t0.left.id, None)
+                    else:
+                        self.paths[t0.left.id] = oldp
                 if s.orelse:
                     out.append("%selse" % ind)
                     self.stmts(s.orelse, ind + "  ", out, set(declared), mut, gen)
@@ -642,13 +706,17 @@ def select_slice(item: dict, fn: ast.FunctionDef) -> typing.List[ast.stmt]:
     asserts -- the latter two only when they can be expressed over the slice's inputs (checked by a trial translation)."""
     targets = set(item["targets"])
     chosen: typing.List[ast.stmt] = []
-    started = False
+    started = bool(item.get("from_start"))
+
+    def guard_only(body) -> bool:
+        return all(isinstance(x, (ast.Raise, ast.Assert)) or (isinstance(x, ast.If) and guard_only(x.body) and guard_only(x.orelse)) for x in body)
+
     for s in fn.body:
         if isinstance(s, ast.Assign) and len(s.targets) == 1 and ast.unparse(s.targets[0]) in targets:
             chosen.append(s)
             started = True
         elif started and isinstance(s, (ast.Assert, ast.If)):
-            if isinstance(s, ast.If) and not (len(s.body) == 1 and isinstance(s.body[0], ast.Raise) and not s.orelse):
+            if isinstance(s, ast.If) and not (guard_only(s.body) and guard_only(s.orelse)):
                 continue
             chosen.append(s)
     found = {ast.unparse(s.targets[0]) for s in chosen if isinstance(s, ast.Assign)}
@@ -694,12 +762,15 @@ def translate_item(item: dict, repo: Path) -> typing.Tuple[typing.List[str], typ
                 except Untranslatable as ex:
                     del body[saved[0]:]
                     tr.pre, tr.tmp = saved[1], saved[2]
-                    skipped.append("%s (%s)" % (ast.unparse(s.test)[:80], ex))
-            res, rtag = tr.e(ast.parse(item["result"], mode="eval").body)
-            if item["ret"] == "bls":
-                res = tr.as_bls(res, rtag)
-            tr.flush(body, "  ")
-            body.append("  return %s" % res)
+                    skipped.append("%s (%s)" % (ast.unparse(s.test)[:80].replace("-/", "- /"), ex))
+            if item["ret"] == "unit":
+                body.append("  pure ()")
+            else:
+                res, rtag = tr.e(ast.parse(item["result"], mode="eval").body)
+                if item["ret"] == "bls":
+                    res = tr.as_bls(res, rtag)
+                tr.flush(body, "  ")
+                body.append("  return %s" % res)
             note = "/- %s (constructor slice: %s)  %s%s -/" % (item["name"], ", ".join(item["targets"]), span,
                                                                ("; left out: " + "; ".join(skipped)) if skipped else "")
         else:
@@ -727,7 +798,7 @@ def check_constants(repo: Path) -> typing.List[str]:
     for src, cls, name, want in CONSTANTS:
         try:
             tree = ast.parse((repo / src).read_text())
-            c = next(x for x in tree.body if isinstance(x, ast.ClassDef) and x.name == cls)
+            c = tree if cls is None else next(x for x in tree.body if isinstance(x, ast.ClassDef) and x.name == cls)
             val = None
             for s in c.body:
                 if isinstance(s, ast.Assign) and len(s.targets) == 1 and isinstance(s.targets[0], ast.Name) and s.targets[0].id == name:
@@ -744,6 +815,18 @@ def translate_layout(repo: Path) -> typing.Tuple[str, typing.List[str]]:
            "set_option linter.unusedVariables false", ""] + PREAMBLE
     problems = check_constants(repo)
     for item in ITEMS:
+        lines, prob = translate_item(item, repo)
+        out += lines
+        if prob:
+            problems.append(prob)
+    return "\n".join(out) + "\n", problems
+
+
+def translate_rules(repo: Path) -> typing.Tuple[str, typing.List[str]]:
+    out = ["import PyLib", "/-! GENERATED by tools/py2lean.py (rules group: constructor guards of pydsdl/_serializable) -- do not edit. -/",
+           "set_option linter.unusedVariables false", ""]
+    problems: typing.List[str] = []
+    for item in RULE_ITEMS:
         lines, prob = translate_item(item, repo)
         out += lines
         if prob:
